@@ -79,6 +79,7 @@ fn main() {
             let mut m = p_epoch::EM::new(&mut rec);
             p_float::c10_numeric(&mut m, &mut rng, thorough);
         }
+        "C07" => p_float::c07(&mut rec, &lm, &mut rng, thorough),
         "C17" => p_float::c17(&mut rec, &lm, &mut rng, thorough),
         "C18" => p_float::c18(&mut rec, &lm, &mut rng, thorough),
         "C11" => p_text::c11(&mut rec, &lm, &mut rng, thorough),
